@@ -385,6 +385,8 @@ def axis_uses(graph):
             continue
         t = e.term
         name, pos, kw = call_parts(t)
+        if any(k is None for k, _ in t.args[2]) and 'axis' not in kw:
+            continue          # f(x, **options) with options that are not a literal here: whether an axis is named is not visible at this site
         if name in REDUCERS:
             ax = kw.get('axis')
             pi = REDUCERS[name]
@@ -1194,3 +1196,29 @@ def decided_complex(t, complex_params, memo=None, depth=0):
                 r = any(decided_complex(p, complex_params, memo, depth + 1) for p in ops)
     memo[t.id] = r
     return r
+
+
+def trace_operand(t):
+    """t is the trace of a matrix stack over its last two axes, whichever way it is spelled: np.trace(x, axis1=-2, axis2=-1) | np.einsum('...dd', x) | '...dd->...' |
+    the sum over the last axis of np.diagonal(x, axis1=-2, axis2=-1)  ->  x, else None"""
+    t = strip_views(t)
+    if is_call_to(t, 'numpy.trace'):
+        a1, a2 = const_val(call_arg(t, 2, 'axis1')) if call_arg(t, 2, 'axis1') is not None else 0, const_val(call_arg(t, 3, 'axis2')) if call_arg(t, 3, 'axis2') is not None else 1
+        return call_arg(t, 0, 'a') if {a1, a2} == {-1, -2} else None
+    if is_call_to(t, 'numpy.einsum'):
+        n, pos, kw = call_parts(t)
+        sub = const_val(pos[0]) if pos else NOVAL
+        if isinstance(sub, str) and len(pos) == 2:
+            lhs, _, rhs = sub.replace(' ', '').partition('->')
+            if lhs.startswith('...') and len(lhs) == 5 and lhs[3] == lhs[4] and rhs in ('', '...'):
+                return pos[1]
+            if lhs.startswith('...') and len(lhs) == 4 and rhs == '...':
+                d = strip_views(pos[1])
+                if is_call_to(d, 'numpy.diagonal') and {const_val(call_arg(d, 2, 'axis1')), const_val(call_arg(d, 3, 'axis2'))} == {-1, -2}:
+                    return call_arg(d, 0, 'a')
+        return None
+    if is_call_to(t, 'numpy.sum') and const_val(call_arg(t, 1, 'axis')) == -1:
+        d = strip_views(call_arg(t, 0, 'a'))
+        if is_call_to(d, 'numpy.diagonal') and {const_val(call_arg(d, 2, 'axis1')), const_val(call_arg(d, 3, 'axis2'))} == {-1, -2}:
+            return call_arg(d, 0, 'a')
+    return None
